@@ -127,6 +127,17 @@ impl ResourceChecker<Cell> for ModeChecker {
 }
 
 // ---------------------------------------------------------------------------------------------------------------------
+// Output checker that accepts every output (same relation as pie's `AlwaysConsistent`, whose own `check` returns
+// `None::<Infallible>`: instantiating a `TaskDependency` with it makes Kani 0.68 ICE on `Option<Infallible>::as_ref`, and the
+// stub that avoids the ICE destroys CBMC's constant folding of every `Option::as_ref` in the program, DESIGN §2).
+#[derive(Clone, Copy, PartialEq, Eq, Hash, Debug, Default)] pub struct AlwaysOk;
+impl<O> OutputChecker<O> for AlwaysOk {
+  type Stamp = ();
+  fn stamp(&self, _output: &O) -> () { () }
+  fn check(&self, _output: &O, _stamp: &()) -> Option<impl Debug> { None::<u8> }
+}
+
+// ---------------------------------------------------------------------------------------------------------------------
 // Fingerprints of trait objects (for the recording tracker)
 
 pub fn fp_key(k: &dyn KeyObj) -> u16 {
@@ -144,7 +155,7 @@ pub fn fp_val(v: &dyn ValueObj) -> u16 {
   if let Some(t) = a.downcast_ref::<ModeChecker>() { return 0x3000 | t.mode as u16; }
   if a.downcast_ref::<()>().is_some() { return 0x4000; }
   if a.downcast_ref::<crate::task::EqualsChecker>().is_some() { return 0x5000; }
-  if a.downcast_ref::<crate::task::AlwaysConsistent>().is_some() { return 0x5001; }
+  if a.downcast_ref::<AlwaysOk>().is_some() { return 0x5001; }
   0xFFFF
 }
 
@@ -222,7 +233,7 @@ pub enum Ins {
   End,
   /// read Cell(c) with ModeChecker{mode}; acc := mix(acc, value)
   Read(u8, u8),
-  /// require P(id) with EqualsChecker (kind 0) or AlwaysConsistent (kind 1); acc := mix(acc, output)
+  /// require P(id) with EqualsChecker (kind 0) or the accept-everything checker AlwaysOk (kind 1); acc := mix(acc, output)
   Req(u8, u8),
   /// write Cell(c) := Some(acc ^ k) with ModeChecker{mode}
   Write(u8, u8, u8),
@@ -243,6 +254,12 @@ pub fn exec_count(id: usize) -> u8 { unsafe { EXEC_COUNT[id] } }
 pub fn exec_total() -> usize { unsafe { XLOG_N } }
 pub fn exec_order(i: usize) -> u8 { unsafe { XLOG[i] } }
 fn mix(acc: u8, v: u8) -> u8 { acc.wrapping_mul(3).wrapping_add(v).wrapping_add(1) }
+/// What a task may use of a value it read with a checker of `mode`: exactly what that checker observes (so that the
+/// task's output depends only on what its checkers observe, the precondition of C01).
+pub fn obs(mode: u8, v: Option<u8>) -> u8 { (abs(mode, v) & 0xFF) as u8 }
+pub static mut REF_VISIT: [bool; NTASK] = [false; NTASK];
+pub fn ref_visit_reset() { unsafe { REF_VISIT = [false; NTASK]; } }
+pub fn ref_visited(id: usize) -> bool { unsafe { REF_VISIT[id] } }
 
 #[derive(Clone, Copy, PartialEq, Eq, Hash, Debug)] pub struct P(pub u8);
 impl Task for P {
@@ -263,10 +280,10 @@ impl Task for P {
         Ins::End => break,
         Ins::Read(cell, mode) => {
           let r = c.read(&Cell(cell), ModeChecker { mode }).expect("read");
-          acc = mix(acc, match r.val { Some(v) => v, None => 0xEE });
+          acc = mix(acc, obs(mode, r.val));
         }
         Ins::Req(t, kind) => {
-          let o = if kind == 0 { c.require(&P(t), crate::task::EqualsChecker) } else { c.require(&P(t), crate::task::AlwaysConsistent) };
+          let o = if kind == 0 { c.require(&P(t), crate::task::EqualsChecker) } else { c.require(&P(t), AlwaysOk) };
           acc = mix(acc, o);
         }
         Ins::Write(cell, mode, k) => {
@@ -290,12 +307,13 @@ impl Task for P {
 /// state `cells`. Returns the output; `cells` is updated by writes. `depth` bounds recursion.
 pub fn ref_eval(id: usize, cells: &mut [Option<u8>; NCELL], depth: u8) -> u8 {
   let prog = unsafe { PROG[id % NTASK] };
+  unsafe { REF_VISIT[id % NTASK] = true; }
   let mut acc: u8 = 0;
   let mut pc = 0;
   while pc < NINS {
     match prog[pc] {
       Ins::End => break,
-      Ins::Read(cell, _) => { acc = mix(acc, match cells[(cell as usize) % NCELL] { Some(v) => v, None => 0xEE }); }
+      Ins::Read(cell, mode) => { acc = mix(acc, obs(mode, cells[(cell as usize) % NCELL])); }
       Ins::Req(t, _) => { let o = if depth == 0 { 0 } else { ref_eval(t as usize, cells, depth - 1) }; acc = mix(acc, o); }
       Ins::Write(cell, _, k) | Ins::WrittenTo(cell, _, k) => { cells[(cell as usize) % NCELL] = Some(acc ^ k); }
       Ins::SkipIfOdd => { if acc & 1 == 1 { pc += 1; } }
